@@ -12,6 +12,10 @@ def run(tier, seed):
     gen = [
         # every 2-call history of read/write with every script (short result, EINTR, EAGAIN, ECONNRESET/EPIPE)
         dict(name="C16_exh_rw", consts=ec.consts({"evread", "evwrite"}, 2, wa=37, wb=331, data=("bLa",) if q else ("a", "bLa"), nsel=(1, 9) if q else (0, 1, 2, 9))),
+        # directed: chain A filled exactly (976 bytes), a read that fills the next chain exactly (976) or not (575/576/977),
+        # drain part of A, small add: last_with_datap must follow the bytes read (validator) and the add must land after them
+        dict(name="C16_dir_readfill", consts=ec.consts({"add", "evread", "drain", "dir_rd"}, 4, wa=400, wb=575, data=("bNa", "bNaC", "C", "a"),
+                                                      nsel=(1, 2, 3, 9))),
         # every sendfile write (offset, howmuch, script) on a DRAINS_TO_FD buffer, incl. howmuch < segment length with an
         # unlimited system call (fixed finding d2d0371: exactly min(howmuch, k) bytes must move)
         dict(name="C16_exh_sf", consts=ec.consts({"sfwrite"}, 1, wa=1021, wb=4099, nsel=(0,))),
@@ -37,7 +41,8 @@ def run(tier, seed):
                 "after every call. Buffers are shaped by add/prepend/add_reference/add_file_segment(mmap,read)/remove_buffer "
                 "(many chains), a sendfile segment is written from a DRAINS_TO_FD buffer. TLC decides CountsExact (read "
                 "conserves socket+buffer, r <= howmuch, r <= what the system call moved) and FailureUnchanged on the model.",
-        "need_hist": {"C16_exh_sf2": lambda h: h[0]["a"] == "sfwrite" and h[0]["e"] == 0 and h[0]["k"] < 0 and 0 < h[0]["hm"] < h[0]["o"]["rest"] + h[0]["o"]["r"]},
+        "need_hist": {"C16_dir_readfill": lambda h: h[1]["o"]["r"] == 976 and h[2]["nb"] == 575 and h[3]["d"] == ["C"],
+                      "C16_exh_sf2": lambda h: h[0]["a"] == "sfwrite" and h[0]["e"] == 0 and h[0]["k"] < 0 and 0 < h[0]["hm"] < h[0]["o"]["rest"] + h[0]["o"]["r"]},
         "assumptions": ["at most 4096 bytes wait in the socket (evbuffer_read's default max_read)",
                         "fewer than 128 chains per buffer (one writev)",
                         "writing an empty buffer / howmuch 0 returns -1 without a system call (named deviation)"],
